@@ -191,6 +191,7 @@ def rule_candidate_started_lazily(ctx: Ctx, out: Collector) -> None:
             if not marks:
                 continue
             n += 1
+            _registry_only_grows(ctx, out, unit, lp, {sym.term(ctx.p, ev.node.func.value, ev.inst)[2] for ev in marks})
             outside = [ev for ev in marks if ev.id not in region]
             if not outside:
                 out.ok('OO-10', cons, lp.where(), f'{len(marks)} recording site(s), all inside the iteration that starts the candidate')
@@ -203,6 +204,38 @@ def rule_candidate_started_lazily(ctx: Ctx, out: Collector) -> None:
                         [f'reached through {ev.inst.chain()}'])
     if n == 0:
         raise AnalysisError('no site recording a started one-of candidate found below the candidate loop (OO-10 anchor vanished)')
+
+
+def _registry_only_grows(ctx: Ctx, out: Collector, unit, lp, fields) -> None:
+    """OO-11: a candidate that was started stays a member of every sub-dag built later in the run - that membership is how the
+    error gate of a later scope sees that the scope contains a failed node.  The registry of started candidates is therefore
+    only added to during a run: no removal, no clearing, no rebinding on the run path."""
+    removing = ('discard', 'remove', 'pop', 'clear', 'difference_update', 'intersection_update', 'symmetric_difference_update')
+    bad = []
+    for fid, g in ctx.run_graphs().items():
+        reach = g.reachable_from_entry()
+        for ev in g.evs:
+            if ev.id not in reach:
+                continue
+            if ev.kind == 'call' and isinstance(ev.node, ast.Call) and isinstance(ev.node.func, ast.Attribute) \
+                    and ev.node.func.attr in removing:
+                recv = sym.term(ctx.p, ev.node.func.value, ev.inst)
+                if isinstance(recv, tuple) and recv[0] == 'attr' and recv[1] == ('param', 'self') and recv[2] in fields:
+                    bad.append(ev)
+            elif ev.kind in ('store', 'del'):
+                tgt = ev.info.get('target')
+                if isinstance(tgt, ast.Attribute) and tgt.attr in fields and sym.term(ctx.p, tgt.value, ev.inst) == ('param', 'self'):
+                    bad.append(ev)
+    cons = f'{unit.module.name}::{unit.qualname}::a started candidate stays a member of the sub-dags built later [started registry only grows]'
+    if not bad:
+        out.ok('OO-11', cons, lp.where(), f'{sorted(fields)}: only added to on the run path')
+    else:
+        ev = bad[0]
+        out.bad('OO-11', cons, ev.where(), f'{ev.text(70)} withdraws a started candidate from {sorted(fields)}: a sub-dag built afterwards '
+                f'for a node that consumes the candidate directly no longer contains it, so the error gate of that scope does not see '
+                f'the candidate\'s failure - the consumer is "ready" (its predecessor holds the exception as its result) and is invoked '
+                f'with the exception object as a value, or waits forever for a candidate that never ran',
+                [f'reached through {ev.inst.chain()}'], props={'C10', 'C05', 'C02'})
 
 
 def rule_oneof_exhaustion(ctx: Ctx, out: Collector) -> None:
